@@ -167,12 +167,18 @@ func c11Short(c *fw.Ctx, i int) {
 		if mtu <= desc {
 			mtu = desc + 1
 		}
+		if r.Chance(1, 150) {
+			mtu = r.Pick(32767, 32768, 32769, 40000, 65534, 65535) // the MTU is a uint16: values with bit 15 set are ordinary
+		}
 		fl := r.Pick(1, 2, mtu-desc-1, mtu-desc, mtu-desc+1, 2*(mtu-desc), 2*(mtu-desc)+1, r.Range(1, 4*mtu))
 		if fl < 1 {
 			fl = 1
 		}
-		if fl > 20000 {
+		if fl > 20000 && mtu < 32000 {
 			fl = 20000
+		}
+		if fl > 140000 {
+			fl = 140000
 		}
 		if (mtu >= 1000 && r.Chance(1, 40)) || (mtu >= 64 && r.Chance(1, 300)) || r.Chance(1, 8000) {
 			fl = r.Pick(65535, 65536, 65537, 70000, 131073) // frames beyond 64 KiB are ordinary key frames
